@@ -119,7 +119,8 @@ def _cases(draw, tier):
     if klass == 'valid':
         return {'klass': klass, 'isa': cfg, 'items': items, 'pp': pp, 'pre': pre}
     if klass == 'fault':
-        fault = draw(st.sampled_from(['unresolvable-label', 'unknown-mnemonic', 'no-variant-accepts', 'value-too-large']))
+        fault = draw(st.sampled_from(['unresolvable-label', 'unknown-mnemonic', 'no-variant-accepts', 'value-too-large',
+                                      'unknown-mnemonic-after-directive']))
         return {'klass': klass, 'isa': cfg, 'items': items, 'fault': fault, 'pick': draw(st.integers(0, 1000)),
                 'pp': pp, 'pre': pre}
     files = G.render_program(items)
@@ -203,6 +204,14 @@ def inject(case):
             {'t': 'instr', 'mn': 'jmp', 'ops': [{'k': 'expr', 'e': ['lab', 'nowhere_defined']}]}
     elif f == 'unknown-mnemonic':
         its[k] = {'t': 'instr', 'mn': 'frob', 'ops': [{'k': 'expr', 'e': ['num', 1, 'dec']}]}
+    elif f == 'unknown-mnemonic-after-directive':
+        # the unknown statement shares its line with a directive that is complete without it
+        head = ['.byte "ab"', '.cstr "x y"', ".asciiz 'q'", '.byte 1, 2', '.2byte $1234', '.fill 2, 7', '.zero 1', '.align',
+                'nop'][case['pick'] // 7 % 9]
+        tail = ['frob', 'frob 1', '!!', '@ 5', 'frob: frob', '$'][case['pick'] // 3 % 6]
+        if tail[0].isalpha() and not head.endswith(('"', "'")) and head != 'nop':
+            tail = '!' + tail       # after an expression a word would be read as part of the expression (rejected as well)
+        its[k] = {'t': 'raw', 'text': head + ' ' + tail}
     elif f == 'no-variant-accepts':
         its[k] = {'t': 'instr', 'mn': 'ldi', 'ops': [{'k': 'reg', 'r': 'a', 'deco': None}]}
     else:
